@@ -43,15 +43,19 @@ def cases(tier, seed):
     out = []
     for i in range(n):
         T = int(rng.choice([1, 2, 2, 3, 4]))
-        rotset = ("none", "list2", "list3", "list5", "list7", "range")[int(rng.integers(0, 6))]
+        rotset = ("none", "list2", "list3", "list5", "list7", "range", "quarter")[int(rng.integers(0, 7))]
         out.append({"kind": "model", "T": T, "rotset": rotset,
+                    "mask": ("none", "none", "halfspace", "box", "ball-bool")[int(rng.integers(0, 5))],
                     "model": ("ZNCC", "ZNCC", "NCC", "PCC")[int(rng.integers(0, 4))],
                     "S": int(rng.choice([22, 24, 25])), "iseed": int(rng.integers(0, 2**31)), "cost": 2.0 * T})
     for i in range(nl):
         out.append({"kind": "loader", "entry": ("stack", "multi", "multi", "group-list", "group-map")[int(rng.integers(0, 5))],
                     "T": int(rng.choice([1, 2, 3])), "rotset": ("none", "list3", "list5", "range")[int(rng.integers(0, 4))],
-                    "model": ("ZNCC", "NCC", "PCC")[int(rng.integers(0, 3))], "scale": float(rng.choice([1.0, 0.7])),
+                    "model": ("ZNCC", "NCC", "PCC")[int(rng.integers(0, 3))], "scale": float(rng.choice([1.0, 0.7, 2.0])),
                     "iseed": int(rng.integers(0, 2**31)), "cost": 8.0})
+    for i in range(2 if tier == "quick" else 30):
+        out.append({"kind": "many", "model": ("ZNCC", "NCC")[int(rng.integers(0, 2))],
+                    "iseed": int(rng.integers(0, 2**31)), "cost": 25.0})
     return out
 
 
@@ -107,7 +111,22 @@ def _model_case(case):
     K = len(rots)
     Model = model_class(p["model"])
     kw = {} if rot_arg is None else {"rotations": rot_arg}
-    model = Model(tmpls if T > 1 else (tmpls[0] if rng.random() < 0.5 else [tmpls[0]]), None, **kw)
+    # masks that are not invariant under the searched rotations (each candidate carries its own rotated mask)
+    zz = np.indices(shape) - (S - 1) / 2
+    mk = p.get("mask", "none")
+    if p["model"] == "PCC" and mk in ("halfspace", "box"):
+        mk = "none"   # PCC scores are not normalised: a mask that cuts candidates differently changes their energy
+    if mk == "halfspace":
+        mask = (1 / (1 + np.exp(-(zz[2] + 0.35 * zz[1] + 3.0) / 1.2))).astype(np.float32)
+    elif mk == "box":
+        mask = ((np.abs(zz[0]) <= S / 2 - 3) & (np.abs(zz[1]) <= S / 2 - 5) & (np.abs(zz[2] - 1) <= S / 2 - 4)).astype(np.float32)
+        from scipy import ndimage as _ndi
+        mask = _ndi.gaussian_filter(mask, 1.0).astype(np.float32)
+    elif mk == "ball-bool":
+        mask = np.sqrt((zz ** 2).sum(0)) <= S / 2 - 1.5          # boolean dtype on purpose
+    else:
+        mask = None
+    model = Model(tmpls if T > 1 else (tmpls[0] if rng.random() < 0.5 else [tmpls[0]]), mask, **kw)
     case.check(model.niter == T * K, "model.niter != T*K", niter=model.niter, T=T, K=K)
     log = CandidateLog(model)
     pairs = [(j, k) for j in range(T) for k in range(K)]
@@ -116,7 +135,7 @@ def _model_case(case):
     if T * K > 1:
         case.nontrivial((T, K, p["iseed"]))
     for j, k in pairs:
-        d = rng.uniform(-M + 0.2, M - 0.2, size=3)
+        d = rng.uniform(-M + 0.2, M - 0.2, size=3) if mask is None else rng.uniform(-0.6, 0.6, size=3)
         img = gen.render_box(shape, sp[j], R=rots[k], d=d)
         res = model.align(img, (M, M, M))
         cands = log.take()
@@ -126,18 +145,23 @@ def _model_case(case):
         mech = None
         case.check(ok_label, "align: label does not identify (template j, rotation k) in rotation-major order",
                    mech, got=int(res.label), want=want_label, T=T, K=K, j=j, k=k, model=p["model"])
+        if p["model"] in ("ZNCC", "NCC"):
+            case.maxobs("max_one_minus_planted_score" + ("_masked" if mask is not None else ""), 1 - float(res.score))
+            case.check(float(res.score) >= 0.95, "align: score of the planted (template, rotation) candidate is low "
+                       "(sub-volume and candidate not masked alike?)", None, score=float(res.score), mask=mk, T=T, K=K,
+                       j=j, k=k)
         case.check(gen.quat_close(res.quat, rots[k].as_quat(), 1e-5),
                    "align: reported rotation is not the candidate rotation that was planted", None,
                    got=res.quat, want=rots[k].as_quat(), T=T, K=K, j=j, k=k, label=int(res.label))
         err = float(np.abs(np.asarray(res.shift, float) - d).max())
         case.maxobs("max_shift_err", err)
-        case.check(err <= TOLERANCES["shift_px"], "align: shift is not the planted displacement", None,
-                   err=err, d=d, got=res.shift, T=T, K=K, j=j, k=k)
+        case.check(err <= (TOLERANCES["shift_px"] if mask is None else 0.5), "align: shift is not the planted displacement",
+                   None, err=err, d=d, got=res.shift, T=T, K=K, j=j, k=k, mask=mk)
         # fit
         out_img, rf = model.fit(img, (M, M, M))
         cands_f = log.take()
         case.check(gen.quat_close(rf.quat, rots[k].as_quat(), 1e-5) and
-                   float(np.abs(np.asarray(rf.shift, float) - d).max()) <= TOLERANCES["shift_px"],
+                   float(np.abs(np.asarray(rf.shift, float) - d).max()) <= (TOLERANCES["shift_px"] if mask is None else 0.5),
                    "fit: result is not the planted (rotation, shift)",
                    "fit.zip-truncation" if T > 1 else None,
                    got_quat=rf.quat, want_quat=rots[k].as_quat(), shift=rf.shift, d=d, T=T, K=K, j=j, k=k)
@@ -146,7 +170,7 @@ def _model_case(case):
                        "fit.zip-truncation", got=int(rf.label), want=want_label, T=T, K=K, j=j, k=k)
         case.check(len(cands_f) == T * K, "fit: not every (template, rotation) candidate was evaluated",
                    "fit.zip-truncation" if T > 1 else None, evaluated=len(cands_f), want=T * K)
-        if T == 1:
+        if T == 1 and mask is None:
             cc = float(np.corrcoef(np.asarray(out_img, float).ravel(), tmpls[0].astype(float).ravel())[0, 1])
             case.check(cc >= 0.9, "fit: transformed image does not superimpose on the template", None, corr=cc,
                        k=k, K=K)
@@ -254,8 +278,60 @@ def _loader_case(case):
                        entry=entry, got=got, want=js[a], T=T, K=K, k=ks[a])
 
 
+def _many_case(case):
+    """More than 256 (rotation, template) candidates: the label feature must still name the template."""
+    import polars as pl
+    from acryo import SubtomogramLoader, Molecules
+    from acryo._rotation import normalize_rotations
+
+    p = case.params
+    rng = gen.rng_for(p["iseed"], "c06m")
+    S, T, M = 16, 3, 1.0
+    shape = (S, S, S)
+    sp = species(rng, shape, T, margin=M + 4.0)
+    tmpls = [gen.render_box(shape, b) for b in sp]
+    rot_arg = ((20.0, 10.0), (20.0, 10.0), (20.0, 10.0))          # 5^3 = 125 rotations -> 375 candidates
+    quats = normalize_rotations(rot_arg)
+    rots = [Rotation.from_quat(q) for q in quats]
+    K = len(rots)
+    nm = 4
+    half = float(np.linalg.norm(shape)) / 2 + M + 3
+    Tt = (int(2 * half) + 4, int(2 * half) + 4, int((2 * half + 2) * nm) + 4)
+    vol = np.zeros(Tt)
+    js, ks, pos, Rin = [], [], [], []
+    for a in range(nm):
+        c = np.array([Tt[0] / 2, Tt[1] / 2, half + 2 + a * (2 * half + 2)])
+        j = a % T
+        k = int(rng.integers(90, K))                              # flat index k*T+j >= 270
+        Rt = gen.random_rotation(rng)
+        gen.render_world(Tt, sp[j], c, Rt, dtype=None, out=vol)
+        js.append(j)
+        ks.append(k)
+        pos.append(c)
+        Rin.append(Rt * rots[k].inv())
+    mole = Molecules(np.array(pos), Rotation.from_quat(np.stack([r.as_quat() for r in Rin])),
+                     features=pl.DataFrame({"uid": list(range(nm))}))
+    loader = SubtomogramLoader(vol.astype(np.float32), mole, order=1, output_shape=shape)
+    out = loader.align_multi_templates(list(tmpls), max_shifts=M, alignment_model=model_class(p["model"]),
+                                       rotations=rot_arg).molecules
+    case.nontrivial(("many", p["iseed"]))
+    case.count("candidates", K * T)
+    lab = out.features["labels"].to_list()
+    case.check(lab == js, "label feature does not name the planted template when more than 256 candidates are searched",
+               None, got=lab, want=js, K=K, T=T, flat=[k * T + j for k, j in zip(ks, js)])
+    for i in range(nm):
+        ang = gen.rot_angle_deg(out.rotator[i], Rin[i] * rots[ks[i]])
+        case.check(ang <= 10.5, "orientation after a 125-rotation search is more than one grid step from the truth",
+                   None, ang=ang)
+
+
 def run(case):
     from vcheck import instr
+
+    if case.params["kind"] == "many":
+        _many_case(case)
+        instr.drain()
+        return
 
     if case.params["kind"] == "model":
         _model_case(case)
